@@ -131,6 +131,7 @@ def boolability_chain(repo):
     fn = _find(tree, ast.FunctionDef, "_get_boolability_no_mvv")
     body = [s for s in fn.body if not (isinstance(s, ast.Expr) and isinstance(s.value, ast.Constant))]
     unwrapped = []
+    delegated = []
     i = 0
     # leading `if isinstance(value, C): value = value.value` and `value = replace_known_sequence_value(value)`
     while i < len(body):
@@ -141,6 +142,13 @@ def boolability_chain(repo):
         elif isinstance(s, ast.Assign) and isinstance(s.value, ast.Call) and isinstance(s.value.func, ast.Name) \
                 and s.value.func.id == "replace_known_sequence_value":
             unwrapped += _replace_known_unwrapped(repo)
+            i += 1
+        elif isinstance(s, ast.If) and not s.orelse and len(s.body) == 1 and isinstance(s.body[0], ast.Return) \
+                and isinstance(s.body[0].value, ast.Call) and isinstance(s.body[0].value.func, ast.Name) \
+                and s.body[0].value.func.id == "get_boolability":
+            # `if isinstance(value, MultiValuedValue): return get_boolability(value)`: what unwrapping
+            # produced is handed back to the union-aware entry point
+            delegated += _isinstance_targets(s.test)
             i += 1
         else:
             break
@@ -158,7 +166,7 @@ def boolability_chain(repo):
             raise TranslateError("boolability.py: chain has no else branch")
         else_raises = _is_raise(node.orelse)
         break
-    return list(dict.fromkeys(unwrapped)), handled, else_raises
+    return list(dict.fromkeys(unwrapped)), handled, else_raises, delegated
 
 
 def _replace_known_unwrapped(repo):
@@ -291,6 +299,26 @@ def show_error_params(repo):
     if not seen_min or after is None:
         raise TranslateError("node_visitor.py: context loop bounds not found")
     return ctx_lines, after, prev[0], prev[1], more
+
+
+def column_converted(repo):
+    """Does show_error convert ast's byte offset into a character offset, i.e. assign
+    `col_offset = len(<bytes>[:col_offset].decode(...))`?"""
+    tree = _parse(repo, "node_visitor.py")
+    cls = _find(tree, ast.ClassDef, "BaseNodeVisitor")
+    fn = [st for st in cls.body if isinstance(st, ast.FunctionDef) and st.name == "show_error"][0]
+    for n in ast.walk(fn):
+        if isinstance(n, ast.Assign) and len(n.targets) == 1 and isinstance(n.targets[0], ast.Name) and n.targets[0].id == "col_offset":
+            v = n.value
+            if isinstance(v, ast.Call) and _name_of(v.func) == "len" and len(v.args) == 1:
+                inner = v.args[0]
+                if isinstance(inner, ast.Call) and isinstance(inner.func, ast.Attribute) and inner.func.attr == "decode":
+                    sub = inner.func.value
+                    if isinstance(sub, ast.Subscript) and isinstance(sub.slice, ast.Slice) and sub.slice.lower is None \
+                            and isinstance(sub.slice.upper, ast.Name) and sub.slice.upper.id == "col_offset":
+                        return True
+                raise TranslateError(f"node_visitor.py:{n.lineno}: col_offset is reassigned in an unsupported way")
+    return False
 
 
 def _name_of(e):
@@ -514,7 +542,7 @@ def _sl(xs):
 def translate(repo: str) -> str:
     codes = error_codes(repo)
     h = value_hierarchy(repo)
-    unwrapped, handled, else_raises = boolability_chain(repo)
+    unwrapped, handled, else_raises, delegated = boolability_chain(repo)
     methods, generic_raises = annotation_visitor(repo)
     se_c, se_e, se_b, se_m, se_more = show_error_params(repo)
     se_more_txt = "[" + "; ".join(f"({b}%Z, {m}%Z)" for b, m in se_more) + "]"
@@ -532,13 +560,15 @@ def translate(repo: str) -> str:
         f"Definition value_hierarchy : hierarchy := [\n{rows}\n]%list.\n\n"
         f"Definition boolability_unwrapped : list string := {_sl(unwrapped)}%list.\n"
         f"Definition boolability_handled : list string := {_sl(handled)}%list.\n"
-        f"Definition boolability_else_raises : bool := {'true' if else_raises else 'false'}.\n\n"
+        f"Definition boolability_else_raises : bool := {'true' if else_raises else 'false'}.\n"
+        f"Definition boolability_delegated : list string := {_sl(delegated)}%list.\n\n"
         f"Definition annotation_visitor_methods : list string := {_sl(methods)}%list.\n"
         f"Definition annotation_generic_raises : bool := {'true' if generic_raises else 'false'}.\n"
         f"Definition expr_kinds : list string := {_sl(expr_kinds())}%list.\n\n"
         f"Definition show_error_params : emit_params :=\n"
         f"  {{| ep_context := {se_c}%Z; ep_after_extra := {se_e}%Z; ep_prev_off := {se_b}%Z; ep_prev_min := {se_m}%Z;\n"
-        f"     ep_more_prev := {se_more_txt}%list |}}.\n\n"
+        f"     ep_more_prev := {se_more_txt}%list |}}.\n"
+        f"Definition column_converted : bool := {'true' if column_converted(repo) else 'false'}.\n\n"
         f"Definition enum_members : list (string * list string) := [{enum_rows}]%list.\n"
         f"Definition enum_chains : list (string * string * string * string * list string) := [\n{chain_rows}\n]%list.\n"
         f"Definition bound_chain_handled : list string := {_sl(bhandled)}%list.\n"
